@@ -56,6 +56,50 @@ def make_transformer(over, swap):
     return Tr()
 
 
+class _Identity:
+    def __init__(self):
+        from odata_query.visitor import NodeTransformer
+        self.t = NodeTransformer()
+
+    def visit(self, node):
+        return self.t.visit(node)
+
+
+IDENTITY = None
+
+
+def rooted_at_plain_a(tree):
+    """does the tree contain a path whose root is the un-namespaced identifier a?"""
+    k = tree[0]
+    if k == "Attr":
+        x = tree
+        while x[0] == "Attr":
+            x = x[1]
+        return x == ["Id", [], "a"] or rooted_at_plain_a(x)
+    return any(rooted_at_plain_a(c) for c in _kids(tree))
+
+
+def _kids(t):
+    k = t[0]
+    if k in ("Id", "Lit", "None", "Hole"):
+        return []
+    if k == "List":
+        return t[1]
+    if k in ("Bin", "Cmp", "Bool"):
+        return [t[2], t[3]]
+    if k == "Un":
+        return [t[2]]
+    if k == "Call":
+        return [t[1]] + t[2]
+    if k in ("Named", "Lam"):
+        return [t[1], t[2]]
+    if k == "Coll":
+        return [t[1]] + ([] if t[3] == ["None"] else [t[3]])
+    if k == "Attr":
+        return [t[1]]
+    return []
+
+
 def shipped_visitors():
     from odata_query import ast
     from odata_query.rewrite import AliasRewriter, IdentifierStripper
@@ -134,6 +178,8 @@ def run(ctx):
     by_id = {c["id"]: c for c in cases}
     validate_logs(ctx, cases, by_id)
     # --- shipped visitors never mutate their input
+    global IDENTITY
+    IDENTITY = _Identity()
     vis = shipped_visitors()
     ctx.notes["shipped_visitors"] = [n for n, _ in vis]
     tl = list(trees.values())
@@ -148,6 +194,21 @@ def run(ctx):
             ctx.traces += 1
             if project.proj(node) != tree:
                 ctx.violation({"what": "visitor-mutated-input", "visitor": name}, {"tree": tree, "after": project.proj(node)})
+                continue
+            # ... and leaves it usable: a transformer without overrides run over the SAME objects afterwards still
+            # returns an equal tree (hidden per-node state left behind by a translation would show here)
+            try:
+                again = project.proj(IDENTITY.visit(node))
+            except Exception as e:  # noqa
+                ctx.violation({"what": "tree-unusable-after-visit", "visitor": name, "exc": type(e).__name__}, {"tree": tree, "msg": str(e)[:200]})
+                continue
+            if again != tree:
+                ctx.violation({"what": "tree-unusable-after-visit", "visitor": name}, {"tree": tree, "after": again})
+            # the shipped single-override transformer: a tree without a path rooted at the plain identifier `a` is returned unchanged
+            if name == "stripper" and not rooted_at_plain_a(tree):
+                out = project.proj(mk().visit(project.build(tree)))
+                if out != tree:
+                    ctx.violation({"what": "transformer-changed-foreign-nodes", "visitor": name}, {"tree": tree, "after": out})
     # --- equality is structural identity
     import random
     rng = random.Random(ctx.seed + 160)
